@@ -370,3 +370,82 @@ impl Check for Equilibrium {
 
 #[allow(dead_code)]
 fn unused(_: VarId) {}
+
+// ---------------------------------------------------------------------------------------
+// the front end: program text in the usual notation is read as the program it denotes
+
+pub struct FrontEnd;
+
+#[derive(Clone, Debug)]
+pub struct FrontCase {
+    pub program: asp::Program,
+    pub via_cli: bool,
+}
+
+fn front_cfg() -> AspCfg {
+    AspCfg {
+        num_lo: 0,
+        term_depth: 4,
+        ..cfg()
+    }
+}
+
+impl Check for FrontEnd {
+    type Case = FrontCase;
+    fn name(&self) -> &'static str {
+        "front-end"
+    }
+    fn cases(&self, tier: Tier) -> usize {
+        tier.pick(150_000, 3_000_000)
+    }
+    fn strategy(&self, _tier: Tier) -> BoxedStrategy<FrontCase> {
+        (ga::program(&front_cfg()), 0u16..1500).prop_map(|(program, k)| FrontCase { program, via_cli: k == 0 }).boxed()
+    }
+    fn rule(&self) -> String {
+        "random program with nested arithmetic (depth up to 4, non-negative numerals) written by the checker's own printer with as few parentheses as the usual conventions require (unary minus > * / \\ > + - > .., binary operators left-associative, nested intervals parenthesised); oracle: anthem reads the text as exactly that program (tree equality), and (1 in 1500) `anthem translate --with tau-star` on the text prints the theory the library computes from the tree; non-trivial = some term has two operators next to each other without parentheses; distinct by text".into()
+    }
+    fn run(&self, case: &FrontCase) -> Outcome {
+        let text = safe_print::asp_program(&case.program, &Style::conventional());
+        let plain = safe_print::asp_program(&case.program, &Style::plain());
+        let parsed: Result<asp::Program, _> = text.parse();
+        let parsed = match parsed {
+            Ok(p) => p,
+            Err(_) => {
+                return Outcome::fail("conventional-text-rejected", format!("C01: the program text is rejected\n  text: {text}\n  meant: {plain}"));
+            }
+        };
+        if parsed != case.program {
+            return Outcome::fail(
+                "text-read-differently",
+                format!(
+                    "C01: the program text is read as a different program\n  text : {text}\n  meant: {plain}\n  read : {}",
+                    safe_print::asp_program(&parsed, &Style::plain())
+                ),
+            );
+        }
+        if case.via_cli {
+            if let Some(bin) = crate::cli::anthem_bin() {
+                let r = crate::cli::run(&bin, &["translate", "--with", "tau-star"], Some(&text));
+                let expected = format!("{}", case.program.clone().tau_star());
+                if r.code != Some(0) || r.stdout.trim() != expected.trim() {
+                    return Outcome::fail(
+                        "cli-differs-from-library",
+                        format!("C01: `anthem translate --with tau-star` on the text differs from tau* of the tree\n  text: {text}\n  exit: {:?}\n  cli : {}\n  lib : {}", r.code, r.stdout, expected),
+                    );
+                }
+            }
+        }
+        // two operators adjacent without parentheses somewhere
+        let bare = text.len() + 4 < plain.len();
+        Outcome::pass(bare, hash64(&text)).label(format!("via_cli={}", case.via_cli))
+    }
+    fn describe(&self, case: &FrontCase) -> Value {
+        json!({"program": safe_print::asp_program(&case.program, &Style::plain()), "conventional": safe_print::asp_program(&case.program, &Style::conventional()), "via_cli": case.via_cli})
+    }
+    fn from_replay(&self, j: &Value) -> Option<FrontCase> {
+        Some(FrontCase {
+            program: j["program"].as_str()?.parse().ok()?,
+            via_cli: j["via_cli"].as_bool()?,
+        })
+    }
+}
